@@ -1,5 +1,6 @@
 import OcppModel.Schema
 import OcppModel.OcppJ
+import OcppProps.SchLemmas
 import OcppProps.C03
 import OcppModel.Expected
 import OcppGen.Skeletons
@@ -44,6 +45,114 @@ theorem code_valid (d : Resp.Dialect) (v : Verdict) (c : String) (h : codeOf d v
 
 theorem accepted_iff_no_code (d : Resp.Dialect) (v : Verdict) : codeOf d v = none ↔ v = .ok := by
   cases v <;> simp [codeOf]
+
+/-! ## what the validator decides, for any schema and value -/
+
+/-- the validator's decision for a field of scalar kind, spelled without the traversal -/
+def scalarCheck (g : String → Bool) (t : Ty) (tags : List Tag) (j : J) : Option String :=
+  if tags.contains .omitempty && !hasValue t j then none
+  else if tags.contains .required && !hasValue t j then some "required"
+  else (tags.find? (fun tg => !tagHolds g (enumVals t) tg j)).map tagName
+
+/-- scalar kinds (string, enumeration, number, boolean): the validator finds no failing tag **iff** the value is empty and the
+    field is `omitempty`, or `required` (if present) is met and every tag of the field holds — the declarative reading -/
+theorem scalar_check_iff (g : String → Bool) (t : Ty) (tags : List Tag) (j : J)
+    (hk : t = .str ∨ t = .int ∨ t = .float ∨ t = .bool ∨ (∃ v, t = .enum v) ∨ t = .any) :
+    checkField g t tags j = none ↔
+      ((tags.contains .omitempty = true ∧ hasValue t j = false) ∨
+       ((tags.contains .required = true → hasValue t j = true) ∧ ∀ tg ∈ tags, tagHolds g (enumVals t) tg j = true)) := by
+  have hdef : checkField g t tags j = scalarCheck g t tags j := by
+    rcases hk with rfl | rfl | rfl | rfl | ⟨v, rfl⟩ | rfl <;>
+    · simp only [checkField, scalarCheck]
+      split
+      · rfl
+      · split
+        · rfl
+        · cases List.find? (fun tg => !tagHolds g _ tg j) tags <;> rfl
+  rw [hdef]
+  unfold scalarCheck
+  by_cases h1 : (tags.contains .omitempty && !hasValue t j) = true
+  · simp only [h1, if_true, true_iff]
+    simp only [Bool.and_eq_true, Bool.not_eq_true'] at h1
+    exact Or.inl h1
+  · simp only [h1, Bool.false_eq_true, if_false]
+    have h1' : ¬ (tags.contains .omitempty = true ∧ hasValue t j = false) := by
+      simpa [Bool.and_eq_true] using h1
+    by_cases h2 : (tags.contains .required && !hasValue t j) = true
+    · simp only [h2, if_true]
+      simp only [Bool.and_eq_true, Bool.not_eq_true'] at h2
+      constructor
+      · intro h; cases h
+      · rintro (h | ⟨h, _⟩)
+        · exact absurd h h1'
+        · have := h h2.1; simp [h2.2] at this
+    · simp only [h2, Bool.false_eq_true, if_false]
+      have h2' : tags.contains .required = true → hasValue t j = true := by
+        intro hr
+        cases hv : hasValue t j with
+        | true => rfl
+        | false => exact absurd (by rw [hr, hv]; rfl) h2
+      cases hf : tags.find? (fun tg => !tagHolds g (enumVals t) tg j) with
+      | none =>
+        simp only [Option.map_none, true_iff]
+        refine Or.inr ⟨h2', ?_⟩
+        intro tg htg
+        have := List.find?_eq_none.mp hf tg htg
+        simpa using this
+      | some tg =>
+        simp only [Option.map_some, reduceCtorEq, false_iff]
+        rintro (h | ⟨_, h⟩)
+        · exact h1' h
+        · have hm := List.mem_of_find?_eq_some hf
+          have hp := List.find?_some hf
+          simp [h tg hm] at hp
+
+/-- a missing required scalar field is reported as `required` (⇒ the dialect's Occurrence code) -/
+theorem required_missing (g : String → Bool) (t : Ty) (tags : List Tag) (j : J)
+    (hk : t = .str ∨ t = .int ∨ t = .float ∨ t = .bool ∨ (∃ v, t = .enum v))
+    (hr : tags.contains .required = true) (ho : tags.contains .omitempty = false) (hv : hasValue t j = false) :
+    checkField g t tags j = some "required" := by
+  rcases hk with rfl | rfl | rfl | rfl | ⟨v, rfl⟩ <;> simp only [checkField, hr, ho, hv] <;> simp
+
+/-- a nil pointer: fine under `omitempty` (or without tags), otherwise the first tag fails -/
+theorem nil_pointer (g : String → Bool) (t : Ty) (tags : List Tag) :
+    checkField g (.ptr t) tags .null = (match tags with
+      | [] => none
+      | .omitempty :: _ => none
+      | tg :: _ => some (tagName tg)) := by
+  simp only [checkField]
+  cases tags with
+  | nil => rfl
+  | cons tg r => cases tg <;> rfl
+
+/-- the validator never evaluates tags on a field of struct kind (only descends): `required` on a non-pointer struct or
+    `DateTime` field is a no-op — which is why the 2.0.1 Heartbeat response needs its struct-level validator -/
+theorem struct_tags_ignored (g : String → Bool) (fs : Fields) (tags tags' : List Tag) (j : J) :
+    checkField g (.struct fs) tags j = checkField g (.struct fs) tags' j := by
+  simp [checkField]
+
+/-- accepted iff well-typed and no failing tag -/
+theorem verdict_ok_iff (g : String → Bool) (t : Ty) (j : J) :
+    verdict g t j = .ok ↔ (wellTyped t j = true ∧ checkField g t [] (norm t j) = none) := by
+  unfold verdict
+  by_cases hw : wellTyped t j = true
+  · simp only [hw, Bool.not_true, Bool.false_eq_true, if_false, true_and]
+    cases checkField g t [] (norm t j) <;> simp
+  · simp [hw]
+
+/-- **sender and receiver agree**: the receiver validates `norm t (norm t j)` (what it decodes from the wire), the sender
+    validated `norm t j` (the value it holds): the same value, hence the same outcome -/
+theorem sender_receiver_agree (g : String → Bool) (t : Ty) (j : J) (hw : SchL.wfTy t = true) (ht : wellTyped t j = true) :
+    checkField g t [] (norm t (norm t j)) = checkField g t [] (norm t j) :=
+  (SchL.reencode_stable g t j hw ht).2
+
+/-! tests -/
+example : checkField (fun _ => true) .str [.required, .max 5] (.str "abcdef") = some "max" := by decide
+example : checkField (fun _ => true) (.ptr .int) [.omitempty, .gte 0] (.num (-1) "-1") = some "gte" := by decide
+example : checkField (fun _ => true) (.slice (.struct (.cons "p" false [.gte 0] .int .nil))) [.required, .min 1, .dive]
+    (.arr [.obj [("p", .num (-1) "-1")]]) = some "gte" := by decide
+example : checkField (fun _ => true) (.slice (.struct (.cons "p" false [.gte 0] .int .nil))) [.required, .min 1]
+    (.arr [.obj [("p", .num (-1) "-1")]]) = none := by decide   -- without `dive` the elements are not looked at (defect 561e228)
 
 theorem skel_parseMessage : Gen.Skeletons.parseMessage = Ocpp.Expected.parseMessage := by decide
 theorem skel_createCall : Gen.Skeletons.createCall = Ocpp.Expected.createCall := by decide
